@@ -976,7 +976,7 @@ def check_sequences(ctx, seqs):
 
 
 # ===================================================================== (C) multimerge
-def gen_merge(rng):
+def gen_merge(rng, index_column=False):
     """1-6 tables with partially overlapping keys.  A key may occur more than once inside a table (many-to-many join):
     `keymode` unique = every table has unique keys; repeated = keys drawn with replacement; shared = a later table may
     re-use an earlier table's key list verbatim or shuffled (identical indexes, where an alignment and a join differ only
@@ -993,6 +993,12 @@ def gen_merge(rng):
     # is still demanded; how the clashing names are told apart is pandas' business, so only the stem of each name is compared
     overlap = suffixes is None and 2 <= nt <= 3 and rng.random() < 0.35
     on = rng.choice(['index', 'k', 'k', 'clonotype'])
+    if index_column:
+        # joined on the index, with suffixes, while a table also has an ordinary DATA column that is literally named 'index' (what reset_index()
+        # leaves behind): the join key is still the index (seeded change C18-r8m3)
+        on, overlap = 'index', False
+        if suffixes is None:
+            suffixes = rng.sample(sufpool, nt)
     tables = []
     for t in range(nt):
         if rng.random() < 0.05 and nt > 1:
@@ -1009,7 +1015,9 @@ def gen_merge(rng):
             if rng.random() < 0.3:
                 ks.sort(key=repr)
         ncol = rng.randint(1, 2) if (overlap or rng.random() < 0.93) else 0      # 0: a table that holds the key only
-        if suffixes is not None or overlap:
+        if index_column and ncol:
+            names = (['index'] + rng.sample(['v', 'w', 'count'], ncol - 1))
+        elif suffixes is not None or overlap:
             names = rng.sample(['v', 'w', 'count'], ncol)
         else:
             names = ['t%d_%s' % (t, s) for s in rng.sample(['v', 'w', 'count'], ncol)]
@@ -1158,7 +1166,7 @@ def run_merge(case, io, dfs=None, holder=None):
 
 def check_merge(ctx, ncases):
     rng = ctx.rng
-    cases = [gen_merge(rng) for _ in range(ncases)]
+    cases = [gen_merge(rng, index_column=(i % 10 == 3)) for i in range(ncases)]
     # the minimal D11 input first
     cases.insert(0, dict(tables=[dict(keys=['a', 'b'], columns=[['v', [1, 2]]]), dict(keys=['b', 'c'], columns=[['w', ['x', 'y']]])],
                          on='k', suffixes=None, how=None))
